@@ -1,10 +1,199 @@
 //go:build verif
 
 // Contracts for package diff, checked by /verif/gvc (comment-only file).
+//
+// The edit-script search (vendored from go-cmp) is verified as it stands. A path is a point, a direction and the
+// script that led there from the path's origin: esX / esY count the entries that consume an element of the old /
+// new list, so the script of a forward path at (X, Y) has counts (X, Y) and that of the reverse path (nx - X,
+// ny - Y). What is proved: the callback is only asked about pairs inside both lists; the script returned
+// consumes both lists exactly; an entry marked identical speaks about a pair the callback called equal, an
+// entry marked modified about a pair it called similar but not equal (C17: astdiff carries the comments of a
+// node over to the next snapshot only for identical pairs). Not proved: how short the script is (the search
+// is a heuristic with a budget), and termination of the outer search loop.
 
 package diff
 
-//@ func Difference(nx, ny, f) (es)
-//@   trusted Myers-style edit script between two index ranges (vendored from go-cmp; summarised): the script consumes the two ranges exactly, so no edit reaches past the end of either
+//@ func funcval:github.com/uber-go/gopatch/internal/diff.EqualFunc(ix, iy) (r)
+//@   ensures r == eqRes(self, ix, iy)
 //@   assigns nothing
-//@   ensures forall k int {es[k]} :: 0 <= k && k < len(es) ==> (consumesX(es[k]) ==> esX(es, k) < nx) && (consumesY(es[k]) ==> esY(es, k) < ny) && (consumesX(es[k]) || consumesY(es[k]))
+
+//@ func (p *path) append(t)
+//@   requires p != nil
+//@   requires 0 <= t && t <= 3
+//@   assigns p.es, p.point, elems(p.es)
+//@   unfold-post esX(p.es, old(len(p.es)) + 1) == esX(p.es, old(len(p.es))) + cX(p.es[old(len(p.es))])
+//@   unfold-post esY(p.es, old(len(p.es)) + 1) == esY(p.es, old(len(p.es))) + cY(p.es[old(len(p.es))])
+//@   ensures len(p.es) == old(len(p.es)) + 1 && p.es[old(len(p.es))] == t && p.dir == old(p.dir)
+//@   ensures p.es.arr == old(p.es.arr) || fresh(p.es.arr)
+//@   ensures forall k int {p.es[k]} :: 0 <= k && k < old(len(p.es)) ==> p.es[k] == old(p.es[k])
+//@   ensures forall k int {esX(p.es, k)} :: 0 <= k && k <= old(len(p.es)) ==> esX(p.es, k) == old(esX(p.es, k))
+//@   ensures forall k int {esY(p.es, k)} :: 0 <= k && k <= old(len(p.es)) ==> esY(p.es, k) == old(esY(p.es, k))
+//@   ensures esX(p.es, len(p.es)) == old(esX(p.es, len(p.es))) + cX(t) && esY(p.es, len(p.es)) == old(esY(p.es, len(p.es))) + cY(t)
+//@   ensures p.point.X == old(p.point.X) + ite(consumesX(t), p.dir, 0) && p.point.Y == old(p.point.Y) + ite(consumesY(t), p.dir, 0)
+
+// Joining a path to a point ahead of it: pairs on the way are compared; equal ones are marked identical,
+// similar ones modified, the rest is consumed one element at a time.
+//@ func (p *path) connect(dst, f)
+//@   requires p != nil && f != nil && (p.dir == 1 || p.dir == 0 - 1)
+//@   requires p.dir == 1 ==> 0 <= p.point.X && p.point.X <= dst.X && 0 <= p.point.Y && p.point.Y <= dst.Y
+//@   requires p.dir != 1 ==> 0 <= dst.X && dst.X <= p.point.X && 0 <= dst.Y && dst.Y <= p.point.Y
+//@   requires wfES(p.es) && labelOK(p, f)
+//@   at call funcval:diff.EqualFunc assert [C08,C17] only-pairs-between-the-path-and-its-target-are-compared: (p.dir == 1 ==> old(p.point.X) <= arg0 && arg0 < dst.X && old(p.point.Y) <= arg1 && arg1 < dst.Y) && (p.dir != 1 ==> dst.X <= arg0 && arg0 < old(p.point.X) && dst.Y <= arg1 && arg1 < old(p.point.Y))
+//@   assigns p.es, p.point, elems(p.es)
+//@   ensures [C17] the-path-ends-at-the-target: p.point.X == dst.X && p.point.Y == dst.Y && p.dir == old(p.dir)
+//@   ensures [C17] the-script-still-leads-from-the-origin-and-says-what-the-callback-said: wfES(p.es) && labelOK(p, f) && origX(p) == old(origX(p)) && origY(p) == old(origY(p))
+//@   ensures len(p.es) >= old(len(p.es)) && (p.es.arr == old(p.es.arr) || fresh(p.es.arr))
+//@   ensures forall k int {p.es[k]} :: 0 <= k && k < old(len(p.es)) ==> p.es[k] == old(p.es[k])
+//@   loop 0
+//@     invariant p.dir == old(p.dir) && (p.es.arr == old(p.es.arr) || fresh(p.es.arr)) && len(p.es) >= old(len(p.es))
+//@     invariant wfES(p.es)
+//@     invariant origX(p) == old(origX(p)) && origY(p) == old(origY(p))
+//@     invariant labelOK(p, f)
+//@     invariant (p.dir == 1 ==> old(p.point.X) <= p.point.X && p.point.X <= dst.X && old(p.point.Y) <= p.point.Y && p.point.Y <= dst.Y) && (p.dir != 1 ==> dst.X <= p.point.X && p.point.X <= old(p.point.X) && dst.Y <= p.point.Y && p.point.Y <= old(p.point.Y))
+//@     invariant forall k int {p.es[k]} :: 0 <= k && k < old(len(p.es)) ==> p.es[k] == old(p.es[k])
+//@     decreases ite(p.dir == 1, (dst.X - p.point.X) + (dst.Y - p.point.Y), (p.point.X - dst.X) + (p.point.Y - dst.Y))
+//@   loop 1
+//@     invariant p.dir == old(p.dir) && (p.es.arr == old(p.es.arr) || fresh(p.es.arr)) && len(p.es) >= old(len(p.es))
+//@     invariant wfES(p.es)
+//@     invariant origX(p) == old(origX(p)) && origY(p) == old(origY(p))
+//@     invariant labelOK(p, f)
+//@     invariant (p.dir == 1 ==> old(p.point.X) <= p.point.X && p.point.X <= dst.X && old(p.point.Y) <= p.point.Y && p.point.Y <= dst.Y) && (p.dir != 1 ==> dst.X <= p.point.X && p.point.X <= old(p.point.X) && dst.Y <= p.point.Y && p.point.Y <= old(p.point.Y))
+//@     invariant forall k int {p.es[k]} :: 0 <= k && k < old(len(p.es)) ==> p.es[k] == old(p.es[k])
+//@     decreases ite(p.dir == 1, (dst.X - p.point.X) + (dst.Y - p.point.Y), (p.point.X - dst.X) + (p.point.Y - dst.Y))
+//@   loop 2
+//@     invariant p.dir == old(p.dir) && (p.es.arr == old(p.es.arr) || fresh(p.es.arr)) && len(p.es) >= old(len(p.es))
+//@     invariant wfES(p.es)
+//@     invariant origX(p) == old(origX(p)) && origY(p) == old(origY(p))
+//@     invariant labelOK(p, f)
+//@     invariant (p.dir == 1 ==> old(p.point.X) <= p.point.X && p.point.X <= dst.X && old(p.point.Y) <= p.point.Y && p.point.Y <= dst.Y) && (p.dir != 1 ==> dst.X <= p.point.X && p.point.X <= old(p.point.X) && dst.Y <= p.point.Y && p.point.Y <= old(p.point.Y))
+//@     invariant forall k int {p.es[k]} :: 0 <= k && k < old(len(p.es)) ==> p.es[k] == old(p.es[k])
+//@     invariant p.point.X == dst.X
+//@     decreases ite(p.dir == 1, (dst.X - p.point.X) + (dst.Y - p.point.Y), (p.point.X - dst.X) + (p.point.Y - dst.Y))
+//@   loop 3
+//@     invariant p.dir == old(p.dir) && (p.es.arr == old(p.es.arr) || fresh(p.es.arr)) && len(p.es) >= old(len(p.es))
+//@     invariant wfES(p.es)
+//@     invariant origX(p) == old(origX(p)) && origY(p) == old(origY(p))
+//@     invariant labelOK(p, f)
+//@     invariant (p.dir == 1 ==> old(p.point.X) <= p.point.X && p.point.X <= dst.X && old(p.point.Y) <= p.point.Y && p.point.Y <= dst.Y) && (p.dir != 1 ==> dst.X <= p.point.X && p.point.X <= old(p.point.X) && dst.Y <= p.point.Y && p.point.Y <= old(p.point.Y))
+//@     invariant forall k int {p.es[k]} :: 0 <= k && k < old(len(p.es)) ==> p.es[k] == old(p.es[k])
+//@     decreases ite(p.dir == 1, (dst.X - p.point.X) + (dst.Y - p.point.Y), (p.point.X - dst.X) + (p.point.Y - dst.Y))
+//@   loop 4
+//@     invariant p.dir == old(p.dir) && (p.es.arr == old(p.es.arr) || fresh(p.es.arr)) && len(p.es) >= old(len(p.es))
+//@     invariant wfES(p.es)
+//@     invariant origX(p) == old(origX(p)) && origY(p) == old(origY(p))
+//@     invariant labelOK(p, f)
+//@     invariant (p.dir == 1 ==> old(p.point.X) <= p.point.X && p.point.X <= dst.X && old(p.point.Y) <= p.point.Y && p.point.Y <= dst.Y) && (p.dir != 1 ==> dst.X <= p.point.X && p.point.X <= old(p.point.X) && dst.Y <= p.point.Y && p.point.Y <= old(p.point.Y))
+//@     invariant forall k int {p.es[k]} :: 0 <= k && k < old(len(p.es)) ==> p.es[k] == old(p.es[k])
+//@     decreases ite(p.dir == 1, (dst.X - p.point.X) + (dst.Y - p.point.Y), (p.point.X - dst.X) + (p.point.Y - dst.Y))
+//@   loop 5
+//@     invariant p.dir == old(p.dir) && (p.es.arr == old(p.es.arr) || fresh(p.es.arr)) && len(p.es) >= old(len(p.es))
+//@     invariant wfES(p.es)
+//@     invariant origX(p) == old(origX(p)) && origY(p) == old(origY(p))
+//@     invariant labelOK(p, f)
+//@     invariant (p.dir == 1 ==> old(p.point.X) <= p.point.X && p.point.X <= dst.X && old(p.point.Y) <= p.point.Y && p.point.Y <= dst.Y) && (p.dir != 1 ==> dst.X <= p.point.X && p.point.X <= old(p.point.X) && dst.Y <= p.point.Y && p.point.Y <= old(p.point.Y))
+//@     invariant forall k int {p.es[k]} :: 0 <= k && k < old(len(p.es)) ==> p.es[k] == old(p.es[k])
+//@     invariant p.point.X == dst.X
+//@     decreases ite(p.dir == 1, (dst.X - p.point.X) + (dst.Y - p.point.Y), (p.point.X - dst.X) + (p.point.Y - dst.Y))
+
+// The search: a forward path grows from (0, 0), a reverse path from (nx, ny); both stay inside the rectangle
+// and the forward path never passes the reverse path. At the end the forward path is joined to the head of the
+// reverse path and the reverse script is appended back to front.
+// The two scans probe the antidiagonal through their frontier outwards from it (offsets 0, -1, 1, -2, 2, ...:
+// after i probes the offsets from -(i/2) to (i+1)/2-1 are done). A scan gives up in a direction only when the
+// diagonal has left the search window there (the test is monotone in the offset, so it is stated for the last
+// offset probed), and until it finds a match no pair on the probed part of the diagonal that lies inside the
+// window is equal: an equal pair on a scanned diagonal is not overlooked. (How good the script is overall is not
+// claimed - the search is a heuristic, see the known finding D26.)
+//@ func Difference(nx, ny, f) (es)
+//@   requires nx >= 0 && ny >= 0 && f != nil
+//@   at call funcval:diff.EqualFunc assert [C08,C17] the-callback-is-asked-about-pairs-inside-both-lists-only: 0 <= arg0 && arg0 < nx && 0 <= arg1 && arg1 < ny
+//@   ensures [C08,C17] the-script-consumes-both-lists-exactly: esX(es, len(es)) == nx && esY(es, len(es)) == ny && wfES(es)
+//@   ensures [C08,C17] no-edit-reaches-past-the-end-of-either-list: forall k int {es[k]} :: 0 <= k && k < len(es) ==> (consumesX(es[k]) ==> esX(es, k) < nx) && (consumesY(es[k]) ==> esY(es, k) < ny) && (consumesX(es[k]) || consumesY(es[k]))
+//@   ensures [C17] identical-means-the-callback-said-equal-and-modified-means-similar-but-not-equal: forall k int {es[k]} :: 0 <= k && k < len(es) ==> (es[k] == 0 ==> rEqual(eqRes(f, esX(es, k), esY(es, k)))) && (es[k] == 3 ==> rSimilar(eqRes(f, esX(es, k), esY(es, k))) && !rEqual(eqRes(f, esX(es, k), esY(es, k))))
+//@   assigns nothing
+//@   loop 0
+//@     invariant fwdPath.dir == 1 && revPath.dir == 0 - 1
+//@     invariant 0 <= fwdPath.point.X && fwdPath.point.X <= revPath.point.X && revPath.point.X <= nx && 0 <= fwdPath.point.Y && fwdPath.point.Y <= revPath.point.Y && revPath.point.Y <= ny
+//@     invariant fwdPath.es.arr != revPath.es.arr && fresh(fwdPath.es.arr) && fresh(revPath.es.arr)
+//@     invariant wfES(fwdPath.es)
+//@     invariant wfES(revPath.es)
+//@     invariant origX(addr(fwdPath)) == 0 && origY(addr(fwdPath)) == 0 && origX(addr(revPath)) == nx && origY(addr(revPath)) == ny
+//@     invariant [C17] labelOK(addr(fwdPath), f)
+//@     invariant [C17] labelOK(addr(revPath), f)
+//@     invariant fwdPath.point.X <= fwdFrontier.X
+//@     invariant fwdPath.point.Y <= fwdFrontier.Y
+//@     invariant revFrontier.X <= revPath.point.X
+//@     invariant revFrontier.Y <= revPath.point.Y
+//@     decreases _
+//@   loop 1
+//@     invariant fwdPath.dir == 1 && revPath.dir == 0 - 1
+//@     invariant 0 <= fwdPath.point.X && fwdPath.point.X <= revPath.point.X && revPath.point.X <= nx && 0 <= fwdPath.point.Y && fwdPath.point.Y <= revPath.point.Y && revPath.point.Y <= ny
+//@     invariant fwdPath.es.arr != revPath.es.arr && fresh(fwdPath.es.arr) && fresh(revPath.es.arr)
+//@     invariant wfES(fwdPath.es)
+//@     invariant wfES(revPath.es)
+//@     invariant origX(addr(fwdPath)) == 0 && origY(addr(fwdPath)) == 0 && origX(addr(revPath)) == nx && origY(addr(revPath)) == ny
+//@     invariant [C17] labelOK(addr(fwdPath), f)
+//@     invariant [C17] labelOK(addr(revPath), f)
+//@     invariant fwdPath.point.X <= fwdFrontier.X
+//@     invariant fwdPath.point.Y <= fwdFrontier.Y
+//@     invariant revFrontier.X <= revPath.point.X
+//@     invariant revFrontier.Y <= revPath.point.Y
+//@     invariant 0 <= i
+//@     invariant !(stop1 && stop2) ==> fwdFrontier.X < revFrontier.X && fwdFrontier.Y < revFrontier.Y
+//@     invariant [C17] the-forward-scan-gives-up-towards-the-top-right-only-outside-the-search-window: stop1 && !stop2 ==> !(fwdFrontier.X + ((i + 1) / 2 - 1) < revPath.point.X && fwdFrontier.Y - ((i + 1) / 2 - 1) >= fwdPath.point.Y)
+//@     invariant [C17] the-forward-scan-gives-up-towards-the-bottom-left-only-outside-the-search-window: stop2 && !stop1 ==> !(fwdFrontier.Y - (0 - i / 2) < revPath.point.Y && fwdFrontier.X + (0 - i / 2) >= fwdPath.point.X)
+//@     invariant [C17] no-equal-pair-on-the-scanned-diagonal-is-overlooked: !(stop1 && stop2) ==> forall z int :: 0 - i / 2 <= z && z <= (i + 1) / 2 - 1 && fwdPath.point.X <= fwdFrontier.X + z && fwdFrontier.X + z < revPath.point.X && fwdPath.point.Y <= fwdFrontier.Y - z && fwdFrontier.Y - z < revPath.point.Y ==> !rEqual(eqRes(f, fwdFrontier.X + z, fwdFrontier.Y - z))
+//@     decreases _
+//@   loop 2
+//@     invariant fwdPath.dir == 1 && revPath.dir == 0 - 1
+//@     invariant 0 <= fwdPath.point.X && fwdPath.point.X <= revPath.point.X && revPath.point.X <= nx && 0 <= fwdPath.point.Y && fwdPath.point.Y <= revPath.point.Y && revPath.point.Y <= ny
+//@     invariant fwdPath.es.arr != revPath.es.arr && fresh(fwdPath.es.arr) && fresh(revPath.es.arr)
+//@     invariant wfES(fwdPath.es)
+//@     invariant wfES(revPath.es)
+//@     invariant origX(addr(fwdPath)) == 0 && origY(addr(fwdPath)) == 0 && origX(addr(revPath)) == nx && origY(addr(revPath)) == ny
+//@     invariant [C17] labelOK(addr(fwdPath), f)
+//@     invariant [C17] labelOK(addr(revPath), f)
+//@     invariant revFrontier.X <= revPath.point.X && revFrontier.Y <= revPath.point.Y
+//@     decreases _
+//@   loop 3
+//@     invariant fwdPath.dir == 1 && revPath.dir == 0 - 1
+//@     invariant 0 <= fwdPath.point.X && fwdPath.point.X <= revPath.point.X && revPath.point.X <= nx && 0 <= fwdPath.point.Y && fwdPath.point.Y <= revPath.point.Y && revPath.point.Y <= ny
+//@     invariant fwdPath.es.arr != revPath.es.arr && fresh(fwdPath.es.arr) && fresh(revPath.es.arr)
+//@     invariant wfES(fwdPath.es)
+//@     invariant wfES(revPath.es)
+//@     invariant origX(addr(fwdPath)) == 0 && origY(addr(fwdPath)) == 0 && origX(addr(revPath)) == nx && origY(addr(revPath)) == ny
+//@     invariant [C17] labelOK(addr(fwdPath), f)
+//@     invariant [C17] labelOK(addr(revPath), f)
+//@     invariant fwdPath.point.X <= fwdFrontier.X
+//@     invariant fwdPath.point.Y <= fwdFrontier.Y
+//@     invariant revFrontier.X <= revPath.point.X
+//@     invariant revFrontier.Y <= revPath.point.Y
+//@     invariant 0 <= i
+//@     invariant !(stop1 && stop2) ==> fwdFrontier.X < revFrontier.X && fwdFrontier.Y < revFrontier.Y
+//@     invariant [C17] the-reverse-scan-gives-up-towards-the-bottom-left-only-outside-the-search-window: stop1 && !stop2 ==> !(fwdPath.point.X < revFrontier.X - ((i + 1) / 2 - 1) && revFrontier.Y + ((i + 1) / 2 - 1) <= revPath.point.Y)
+//@     invariant [C17] the-reverse-scan-gives-up-towards-the-top-right-only-outside-the-search-window: stop2 && !stop1 ==> !(fwdPath.point.Y < revFrontier.Y + (0 - i / 2) && revFrontier.X - (0 - i / 2) <= revPath.point.X)
+//@     invariant [C17] no-equal-pair-on-the-scanned-diagonal-is-overlooked: !(stop1 && stop2) ==> forall z int :: 0 - i / 2 <= z && z <= (i + 1) / 2 - 1 && fwdPath.point.X < revFrontier.X - z && revFrontier.X - z <= revPath.point.X && fwdPath.point.Y < revFrontier.Y + z && revFrontier.Y + z <= revPath.point.Y ==> !rEqual(eqRes(f, revFrontier.X - z - 1, revFrontier.Y + z - 1))
+//@     decreases _
+//@   loop 4
+//@     invariant fwdPath.dir == 1 && revPath.dir == 0 - 1
+//@     invariant 0 <= fwdPath.point.X && fwdPath.point.X <= revPath.point.X && revPath.point.X <= nx && 0 <= fwdPath.point.Y && fwdPath.point.Y <= revPath.point.Y && revPath.point.Y <= ny
+//@     invariant fwdPath.es.arr != revPath.es.arr && fresh(fwdPath.es.arr) && fresh(revPath.es.arr)
+//@     invariant wfES(fwdPath.es)
+//@     invariant wfES(revPath.es)
+//@     invariant origX(addr(fwdPath)) == 0 && origY(addr(fwdPath)) == 0 && origX(addr(revPath)) == nx && origY(addr(revPath)) == ny
+//@     invariant [C17] labelOK(addr(fwdPath), f)
+//@     invariant [C17] labelOK(addr(revPath), f)
+//@     invariant fwdPath.point.X <= fwdFrontier.X && fwdPath.point.Y <= fwdFrontier.Y
+//@     decreases _
+//@   loop 5
+//@     unfold esX(revPath.es, i + 1) == esX(revPath.es, i) + cX(revPath.es[i])
+//@     unfold esY(revPath.es, i + 1) == esY(revPath.es, i) + cY(revPath.es[i])
+//@     invariant fwdPath.dir == 1 && 0 - 1 <= i && len(revPath.es) == i + 1
+//@     invariant fwdPath.es.arr != revPath.es.arr && fresh(fwdPath.es.arr) && fresh(revPath.es.arr)
+//@     invariant wfES(fwdPath.es)
+//@     invariant origX(addr(fwdPath)) == 0 && origY(addr(fwdPath)) == 0
+//@     invariant [C17] labelOK(addr(fwdPath), f)
+//@     invariant esX(revPath.es, 0) == 0 && esY(revPath.es, 0) == 0
+//@     invariant fwdPath.point.X == nx - esX(revPath.es, i + 1) && fwdPath.point.Y == ny - esY(revPath.es, i + 1)
+//@     invariant [C17] forall k int {revPath.es[k]} :: 0 <= k && k <= i ==> 0 <= revPath.es[k] && revPath.es[k] <= 3 && (revPath.es[k] == 0 ==> rEqual(eqRes(f, nx - esX(revPath.es, k) - 1, ny - esY(revPath.es, k) - 1))) && (revPath.es[k] == 3 ==> rSimilar(eqRes(f, nx - esX(revPath.es, k) - 1, ny - esY(revPath.es, k) - 1)) && !rEqual(eqRes(f, nx - esX(revPath.es, k) - 1, ny - esY(revPath.es, k) - 1)))
+//@     decreases i + 1
